@@ -676,9 +676,10 @@ func (r *Request) do() (resp *Response, err error) {
 			resp.Err = err
 		}
 
-		// Determine if the error is from a canceled context.
+		// Determine if the request's context has ended (canceled, or past its deadline):
+		// nothing may be retried then.
 		// Store it here so it doesn't get lost when processing the AfterResponse middleware.
-		contextCanceled := errors.Is(err, context.Canceled)
+		contextCanceled := errors.Is(err, context.Canceled) || r.Context().Err() != nil
 
 		for _, f := range r.afterResponse {
 			if e := f(r.client, resp); e != nil { // a middleware returning nil must not clear the round trip's err
@@ -712,7 +713,12 @@ func (r *Request) do() (resp *Response, err error) {
 				r.retryOption.RetryHooks[i](resp, err)
 			}
 		}
-		time.Sleep(r.retryOption.GetRetryInterval(resp, r.RetryAttempt))
+		if !sleepContext(r.Context(), r.retryOption.GetRetryInterval(resp, r.RetryAttempt)) {
+			// the context ended while waiting for the next attempt
+			err = r.Context().Err()
+			resp.Err = err
+			return
+		}
 
 		// clean up before retry
 		if r.dumpBuffer != nil {
@@ -724,6 +730,21 @@ func (r *Request) do() (resp *Response, err error) {
 		resp.body = nil
 		resp.result = nil
 		resp.error = nil
+	}
+}
+
+// sleepContext waits for d, or until ctx ends, and reports whether the whole interval elapsed.
+func sleepContext(ctx context.Context, d time.Duration) bool {
+	if d <= 0 {
+		return true
+	}
+	t := time.NewTimer(d)
+	defer t.Stop()
+	select {
+	case <-t.C:
+		return true
+	case <-ctx.Done():
+		return false
 	}
 }
 
